@@ -240,11 +240,9 @@ func getConditionTags(condition influxql.Expr, schema *CleanSchema) []*influx.Po
 		case influxql.OR:
 			ltags := getConditionTags(expr.LHS, schema)
 			rtags := getConditionTags(expr.RHS, schema)
-			if ltags == nil {
-				return rtags
-			}
-			if rtags == nil {
-				return ltags
+			if ltags == nil || rtags == nil {
+				// one side does not constrain the shard key: neither does the disjunction
+				return nil
 			}
 			return append(ltags, rtags...)
 		case influxql.EQ:
